@@ -180,6 +180,7 @@ def arraylit_sources():
                      ("print-nothing", "print ;"), ("clone-nothing", "$v0 = clone ;"), ("throw-nothing-expr", "$v0 = 1 ?? throw ;"),
                      ("yield-nothing", "function y ( ) { yield => ; } foreach ( y ( ) as $w ) { }"), ("static-novalue", "static $z = ;"),
                      ("const-novalue", "const Z = ;"), ("global-nothing", "global ;"), ("unset-nothing", "unset ( , ) ;"), ("isset-nothing", "echo isset ( , ) ;"),
+                     ("keyed-destructuring", "[ \"a\" => $v1 ] = [ \"a\" => 5 ] ; echo $v1 ;"), ("list-destructuring", "[ $v1 , $v2 ] = [ 5 , 6 ] ; echo $v1 ;"),
                      ("instanceof-nothing", "echo $v1 instanceof ;"), ("spread-nothing", "echo f ( ... ) ;"), ("index-nothing", "echo $v1 [ , ] ;")]:
         out.append((tag, src))
     return out
@@ -419,9 +420,9 @@ def main(ck):
                      # parse watchdog: generous, so that it can only fire on a real hang (a parse takes milliseconds; the
                      # parser's own no-progress guard is count-based), never because the machine is loaded.  The run budget is
                      # short: a mutant that loops forever is counted, not reported.
-                     # (capped: the slowest 4 MB input of the unchanged tree parses in 8 s idle; an uncapped 2 s/KiB would let a
+                     # (capped at 60 s: the slowest 3 MB input of the unchanged tree parses in 6 s idle; an uncapped 2 s/KiB would let a
                      # quadratic regression on one long line run for hours instead of being reported)
-                     "budget_ms": min(max(30000, 2000 * kb), 120000), "run_budget_ms": 2000,
+                     "budget_ms": min(max(30000, 2000 * kb), 60000), "run_budget_ms": 2000,
                      # sources too long for the lexer tie do not need their token list back (the engine reports the
                      # token count and the bracket-balance verdict itself): keeps the thorough tier's memory bounded
                      "maxtoks": 1 if len(c["hex"]) > 8000 else 0})
